@@ -10,7 +10,7 @@ use quote::ToTokens;
 
 pub fn contracts() -> Vec<Contract> {
     vec![
-        Contract { name: "cx_fn_grammar", function: "lib.rs::invoke -> entrait_fn::entrait_for_single_fn and everything below it", props: &["C01", "C02", "C03", "C04", "C05", "C11", "C12", "C13", "C18", "C19"], run: cx_fn },
+        Contract { name: "cx_fn_grammar", function: "lib.rs::invoke -> entrait_fn::entrait_for_single_fn and everything below it", props: &["C01", "C02", "C03", "C04", "C05", "C11", "C12", "C13", "C16", "C18", "C19"], run: cx_fn },
         Contract { name: "cx_mod_grammar", function: "lib.rs::invoke -> entrait_fn::{entrait_for_mod, entrait_for_impl_block} and everything below them", props: &["C01", "C02", "C03", "C04", "C07", "C08", "C12", "C13", "C19"], run: cx_mod },
         Contract { name: "c07_borrow_from_deps", function: "signature/converter.rs::generate_params / gen_impl_receiver, entrait_trait/mod.rs::gen_impl_trait (delegation-target trait)", props: &["C07", "C03"], run: c07_borrow },
         Contract { name: "c03_module_generic_names", function: "analyze_generics.rs::GenericsAnalyzer (one analyzer shared by all functions of a module / impl block)", props: &["C03"], run: c03_generic_names },
@@ -62,7 +62,11 @@ fn cx_fn(ctx: &Ctx, r: &mut Report) {
         ("concrete", false, "deps: &my::App", &[], false, Some("my :: App"), false),
         ("no-deps", false, "", &[], false, None, true),
     ];
-    let params: [&[(&str, &str)]; 10] = [
+    let params: [&[(&str, &str)]; 14] = [
+        &[("_", "u8")],
+        &[("W(w)", "W")],
+        &[("mut f", "u8")],
+        &[("W(f_)", "W"), ("f", "u8")],
         &[],
         &[("a", "i32")],
         &[("a", "i32"), ("b", "i32")],
